@@ -8,6 +8,7 @@ package main
 import (
 	"bytes"
 	"encoding/base64"
+	"encoding/json"
 	"errors"
 	"fmt"
 	"math/rand"
@@ -15,6 +16,7 @@ import (
 	"net/http"
 	"net/http/httptest"
 	"net/url"
+	"strconv"
 	"strings"
 
 	"github.com/labstack/echo/v4"
@@ -39,7 +41,16 @@ type c13Hdr struct {
 }
 
 type c13Case struct {
-	Mode int `json:"mode"` // 0 = BasicAuth, 1 = KeyAuth, 2 = overlapping requests through ONE middleware instance (c13_conc.go)
+	Mode int `json:"mode"` // 0 = BasicAuth, 1 = KeyAuth, 2 = overlapping requests through ONE middleware instance (c13_conc.go), 3 = exported CreateExtractors(Lookup) applied to the request
+
+	// which public entry point builds the middleware: 0 = ...WithConfig(config), 1 = the convenience constructor
+	// BasicAuth(fn) / KeyAuth(fn) (every other option at its default: Realm, Lookup, Scheme, EH, Cont, Skipper of
+	// the case are then ignored), 2 / 3 = the same two with a nil validator (the constructor must panic)
+	Ctor int `json:"ctor,omitempty"`
+	// Skipper: 0 = not set (default, never skips), 1 = custom: skips exactly the requests that carry the header
+	// X-Verif-Skip.  Skip: the request carries that header.
+	Skipper int  `json:"skipper,omitempty"`
+	Skip    bool `json:"skip,omitempty"`
 
 	// mode 2: the requests (Sub[0] also carries the configuration and the validator table) and, per request,
 	// the index of the validator call inside which it waits until the next request has been served (-1: never)
@@ -64,7 +75,7 @@ type c13Case struct {
 	Query   []c13KV  `json:"query,omitempty"`
 	Form    []c13KV  `json:"form,omitempty"`
 	Cookie  []string `json:"cookie,omitempty"` // raw Cookie header lines
-	Params  []string `json:"params,omitempty"` // nil: GET/POST "/"; two URL-safe values: "/p/<key>/<other>" on route /p/:key/:other
+	Params  []string `json:"params,omitempty"` // nil: GET/POST "/"; two URL-safe values: "/p/<key>/<other>" on route /p/:key/:other; 22 values: route /m/... with 22 parameters, six of them named key (indices 0, 5, 18-21)
 
 	// the REST of the query string / body: raw fragments joined with "&" around the well-formed pairs (bad
 	// %-escapes, semicolons, duplicate and very long fields, ...); RawFirst puts them in front
@@ -78,6 +89,30 @@ type c13Case struct {
 	Multipart bool   `json:"multipart,omitempty"`
 	Boundary  string `json:"boundary,omitempty"`
 	CT        string `json:"ct,omitempty"`
+}
+
+type c13Alias c13Case
+
+// raw Cookie lines may hold bytes that are not UTF-8; they travel as marker + base64 (a3EncStr) so that replays are exact
+func (c *c13Case) mapStrings(f func(string) string) c13Alias {
+	a := c13Alias(*c)
+	a.Cookie, a.RawQuery, a.RawBody = a3MapStrs(c.Cookie, f), a3MapStrs(c.RawQuery, f), a3MapStrs(c.RawBody, f)
+	return a
+}
+
+func (c c13Case) MarshalJSON() ([]byte, error) {
+	a := c.mapStrings(a3EncStr)
+	return json.Marshal(&a)
+}
+
+func (c *c13Case) UnmarshalJSON(data []byte) error {
+	var a c13Alias
+	if err := json.Unmarshal(data, &a); err != nil {
+		return err
+	}
+	d := c13Case(a)
+	*c = c13Case(d.mapStrings(a3DecStr))
+	return nil
 }
 
 var errC13Validator = errors.New("validator backend failed")
@@ -122,11 +157,63 @@ func c13Run(ci any) Result {
 	c := ci.(*c13Case)
 	switch c.Mode {
 	case 0:
-		return c13RunBasic(c)
+		return c13RunBasic(c13Norm(c))
 	case 2:
 		return c13RunConc(c)
+	case 3:
+		return c13RunExtractors(c13Norm(c))
 	}
-	return c13RunKey(c)
+	return c13RunKey(c13Norm(c))
+}
+
+const c13SkipHeader = "X-Verif-Skip"
+
+// the configuration that is really in force: the convenience constructors take nothing but the validator
+func c13Norm(c *c13Case) *c13Case {
+	d := *c
+	if d.Ctor == 1 || d.Ctor == 3 {
+		d.Realm, d.Lookup, d.Scheme, d.EH, d.Cont, d.Skipper = "", "", "", 0, false, 0
+	}
+	if d.Mode == 3 {
+		d.Ctor, d.Skipper, d.Scheme, d.EH, d.Cont = 0, 0, "", 0, false
+	}
+	return &d
+}
+
+func (c *c13Case) skipped() bool { return c.Skipper == 1 && c.Skip }
+
+func c13Skipper(c *c13Case) middleware.Skipper {
+	if c.Skipper == 0 {
+		return nil
+	}
+	return func(ctx echo.Context) bool { return ctx.Request().Header.Get(c13SkipHeader) != "" }
+}
+
+// route with 22 path parameters: the looked-up name `key` sits at indices 0, 5, 18, 19, 20, 21, so the
+// index-based limit of valuesFromParam (stop after a match at index >= 19) is reached
+func c13ParamNames(n int) []string {
+	if n == 2 {
+		return []string{"key", "other"}
+	}
+	var out []string
+	for i := 0; i < n; i++ {
+		switch i {
+		case 0, 5, 18, 19, 20, 21:
+			out = append(out, "key")
+		default:
+			out = append(out, "o"+strconv.Itoa(i))
+		}
+	}
+	return out
+}
+
+func c13ManyRoute() string {
+	var b strings.Builder
+	b.WriteString("/m")
+	for _, n := range c13ParamNames(22) {
+		b.WriteString("/:" + n)
+	}
+	return b.String()
 }
 
 // ---------- BasicAuth ----------
@@ -135,29 +222,53 @@ func c13RunBasic(c *c13Case) (res Result) {
 	var calls []c13Call
 	ran := false
 	e := echo.New()
-	e.Use(middleware.BasicAuthWithConfig(middleware.BasicAuthConfig{
-		Realm: c.Realm,
-		Validator: func(u, p string, _ echo.Context) (bool, error) {
-			calls = append(calls, c13Call{u, p})
-			return c13Outcome(c.lookup([]byte(u), []byte(p)), c.ErrValid)
-		},
-	}))
-	e.GET("/", func(ctx echo.Context) error {
-		ran = true
-		return ctx.NoContent(http.StatusOK)
-	})
-	req := httptest.NewRequest(http.MethodGet, "/", nil)
-	for _, a := range c.Auth {
-		req.Header["Authorization"] = append(req.Header["Authorization"], string(a))
+	var validator middleware.BasicAuthValidator = func(u, p string, _ echo.Context) (bool, error) {
+		calls = append(calls, c13Call{u, p})
+		return c13Outcome(c.lookup([]byte(u), []byte(p)), c.ErrValid)
 	}
-	rec := httptest.NewRecorder()
-
-	ops := []string{"0", wInt(len(c.Auth))}
+	if c.Ctor >= 2 {
+		validator = nil
+	}
+	ops := []string{"0", wInt(c.Ctor), wBool(c.skipped()), wStr(c.Realm), wStr(strconv.Quote(c.Realm)), wInt(len(c.Auth))}
 	for _, a := range c.Auth {
 		ops = append(ops, wBytes(a))
 	}
 	ops = append(ops, c13Table(c, true))
 	res.Ops = strings.Join(ops, " ")
+
+	var mw echo.MiddlewareFunc
+	ctorPanic := func() (p bool) {
+		defer func() {
+			if r := recover(); r != nil {
+				p = true
+			}
+		}()
+		if c.Ctor == 1 || c.Ctor == 3 {
+			mw = middleware.BasicAuth(validator)
+		} else {
+			mw = middleware.BasicAuthWithConfig(middleware.BasicAuthConfig{Skipper: c13Skipper(c), Realm: c.Realm, Validator: validator})
+		}
+		return false
+	}()
+	if ctorPanic || c.Ctor >= 2 {
+		// a nil validator is the one documented constructor panic; anything else is a failure
+		res.Obs = "config-panic"
+		if !ctorPanic {
+			res.Obs = "constructor accepted a nil validator"
+		} else if c.Ctor < 2 {
+			res.Obs = "constructor panicked"
+			res.Oracle = "BasicAuth constructor panicked although a validator was given"
+		}
+		res.Tags = []string{"basic:nil-validator"}
+		return res
+	}
+	e.Use(mw)
+	e.Any("/", func(ctx echo.Context) error {
+		ran = true
+		return ctx.NoContent(http.StatusOK)
+	})
+	req := c13BasicRequest(c)
+	rec := httptest.NewRecorder()
 
 	panicked := func() (p bool) {
 		defer func() {
@@ -174,17 +285,32 @@ func c13RunBasic(c *c13Case) (res Result) {
 		res.Tags = []string{"basic:panic"}
 		return res
 	}
-	www := rec.Header().Get("WWW-Authenticate") != ""
+	wwwValue := rec.Header().Get("WWW-Authenticate")
+	www := wwwValue != ""
 	obs := []string{wBool(ran), wInt(rec.Code), wBool(www), wInt(len(calls))}
 	for _, cl := range calls {
 		obs = append(obs, wStr(cl.u), wStr(cl.p))
 	}
+	obs = append(obs, wStr(wwwValue))
 	res.Obs = strings.Join(obs, " ")
 
 	oracle, derived, wellFormed := c13BasicOracle(c, calls, ran, rec.Code)
 	res.Oracle = oracle
 
+	if c.Ctor == 1 {
+		res.Tags = append(res.Tags, "basic:ctor-BasicAuth(fn)")
+	}
+	if c.Skipper == 1 {
+		res.Tags = append(res.Tags, "basic:custom-skipper")
+	}
+	if derived {
+		if du, dp := c13BasicDecoded(c); du != strings.TrimSpace(du) || dp != strings.TrimSpace(dp) {
+			res.Tags = append(res.Tags, "basic:boundary-whitespace-in-credentials")
+		}
+	}
 	switch {
+	case c.skipped():
+		res.Tags = append(res.Tags, "basic:skipped")
 	case ran:
 		res.Tags = append(res.Tags, "basic:ran")
 	case rec.Code == 400:
@@ -199,12 +325,33 @@ func c13RunBasic(c *c13Case) (res Result) {
 	if len(c.Auth) > 1 {
 		res.Tags = append(res.Tags, "basic:repeated-header")
 	}
+	if c.Method != "" && c.Method != http.MethodGet {
+		res.Tags = append(res.Tags, "basic:method-"+c.Method)
+	}
 	if derived && !wellFormed {
 		res.Tags = append(res.Tags, "basic:separator-not-space")
 	}
 	res.Nontrivial = len(calls) > 0 || rec.Code == 400
 	return res
 }
+
+func c13BasicRequest(c *c13Case) *http.Request {
+	method := c.Method
+	if method == "" {
+		method = http.MethodGet
+	}
+	req := httptest.NewRequest(method, "/", nil)
+	for _, a := range c.Auth {
+		req.Header["Authorization"] = append(req.Header["Authorization"], string(a))
+	}
+	if c.Skip {
+		req.Header.Set(c13SkipHeader, "1")
+	}
+	return req
+}
+
+// request methods a middleware might be tempted to wave through (preflights, probes) besides the usual ones
+var c13Methods = []string{"OPTIONS", "OPTIONS", "HEAD", "HEAD", "TRACE", "PROPFIND", "DELETE", "PUT", "POST", "PATCH", "REPORT"}
 
 // ---------- KeyAuth ----------
 
@@ -217,11 +364,19 @@ type c13Src struct {
 // for `header:Authorization`, the AuthScheme followed by a space)
 func c13Sources(c *c13Case) ([]c13Src, bool) {
 	lookup, scheme := c.Lookup, c.Scheme
-	if lookup == "" {
-		lookup = "header:Authorization"
-	}
-	if scheme == "" {
-		scheme = "Bearer"
+	if c.Mode == 3 {
+		// exported CreateExtractors: no defaults, no AuthScheme
+		if lookup == "" {
+			return nil, true
+		}
+		scheme = ""
+	} else {
+		if lookup == "" {
+			lookup = "header:Authorization"
+		}
+		if scheme == "" {
+			scheme = "Bearer"
+		}
 	}
 	var out []c13Src
 	for _, s := range strings.Split(lookup, ",") {
@@ -234,7 +389,7 @@ func c13Sources(c *c13Case) ([]c13Src, bool) {
 		case "header":
 			if len(parts) > 2 {
 				src.pre = parts[2]
-			} else if parts[1] == "Authorization" {
+			} else if parts[1] == "Authorization" && scheme != "" {
 				src.pre = scheme
 				if !strings.HasSuffix(src.pre, " ") {
 					src.pre += " "
@@ -286,6 +441,8 @@ func c13Request(c *c13Case) *http.Request {
 	target := "/"
 	if len(c.Params) == 2 {
 		target = "/p/" + c.Params[0] + "/" + c.Params[1]
+	} else if len(c.Params) == 22 {
+		target = "/m/" + strings.Join(c.Params, "/")
 	}
 	hasBody := len(c.Form) > 0 || len(c.RawBody) > 0
 	method := c.Method
@@ -344,6 +501,9 @@ func c13Request(c *c13Case) *http.Request {
 	for _, ck := range c.Cookie {
 		req.Header["Cookie"] = append(req.Header["Cookie"], ck)
 	}
+	if c.Skip {
+		req.Header.Set(c13SkipHeader, "1")
+	}
 	return req
 }
 
@@ -372,8 +532,10 @@ func c13Located(c *c13Case, src c13Src) []c13Pair {
 			out = append(out, c13Pair{ck.Name, ck.Value})
 		}
 	case "param":
-		if len(c.Params) == 2 {
-			out = append(out, c13Pair{"key", c.Params[0]}, c13Pair{"other", c.Params[1]})
+		if len(c.Params) == 2 || len(c.Params) == 22 {
+			for i, n := range c13ParamNames(len(c.Params)) {
+				out = append(out, c13Pair{n, c.Params[i]})
+			}
 		}
 	}
 	return out
@@ -410,7 +572,7 @@ func c13RunKey(c *c13Case) (res Result) {
 	ehClass := 0
 	srcs, okCfg := c13Sources(c)
 
-	ops := []string{"1", wStr(c.Lookup), wStr(c.Scheme), wInt(c.EH), wBool(c.Cont), wInt(len(srcs))}
+	ops := []string{"1", wInt(c.Ctor), wBool(c.skipped()), wStr(c.Lookup), wStr(c.Scheme), wInt(c.EH), wBool(c.Cont), wInt(len(srcs))}
 	located := make([][]c13Pair, len(srcs))
 	for i, s := range srcs {
 		located[i] = c13Located(c, s)
@@ -422,14 +584,20 @@ func c13RunKey(c *c13Case) (res Result) {
 	ops = append(ops, c13Table(c, false))
 	res.Ops = strings.Join(ops, " ")
 
+	var validator middleware.KeyAuthValidator = func(key string, _ echo.Context) (bool, error) {
+		calls = append(calls, key)
+		return c13Outcome(c.lookup([]byte(key), nil), c.ErrValid)
+	}
+	if c.Ctor >= 2 {
+		validator = nil
+	}
+	unwrapBroken := false
 	cfg := middleware.KeyAuthConfig{
+		Skipper:                c13Skipper(c),
 		KeyLookup:              c.Lookup,
 		AuthScheme:             c.Scheme,
 		ContinueOnIgnoredError: c.Cont,
-		Validator: func(key string, _ echo.Context) (bool, error) {
-			calls = append(calls, key)
-			return c13Outcome(c.lookup([]byte(key), nil), c.ErrValid)
-		},
+		Validator:              validator,
 	}
 	if c.EH != 0 {
 		cfg.ErrorHandler = func(err error, _ echo.Context) error {
@@ -437,6 +605,10 @@ func c13RunKey(c *c13Case) (res Result) {
 			switch {
 			case errors.As(err, &miss):
 				ehClass = 1
+				// the exported error type unwraps to the error it carries
+				if errors.Unwrap(miss) != miss.Err || (miss.Err != nil && !errors.Is(err, miss.Err)) {
+					unwrapBroken = true
+				}
 			case errors.Is(err, errC13Validator):
 				ehClass = 3
 			default:
@@ -464,9 +636,21 @@ func c13RunKey(c *c13Case) (res Result) {
 				p = true
 			}
 		}()
-		mw = middleware.KeyAuthWithConfig(cfg)
+		if c.Ctor == 1 || c.Ctor == 3 {
+			mw = middleware.KeyAuth(validator)
+		} else {
+			mw = middleware.KeyAuthWithConfig(cfg)
+		}
 		return false
 	}()
+	if c.Ctor >= 2 {
+		res.Obs = "config-panic"
+		if !cfgPanic {
+			res.Obs = "constructor accepted a nil validator"
+		}
+		res.Tags = []string{"key:nil-validator"}
+		return res
+	}
 	if cfgPanic || !okCfg {
 		if cfgPanic && !okCfg {
 			res.Obs = "config-panic"
@@ -483,6 +667,7 @@ func c13RunKey(c *c13Case) (res Result) {
 	}
 	e.Any("/", h)
 	e.Any("/p/:key/:other", h)
+	e.Any(c13ManyRoute(), h)
 	req := c13Request(c)
 	rec := httptest.NewRecorder()
 	panicked := func() (p bool) {
@@ -511,11 +696,28 @@ func c13RunKey(c *c13Case) (res Result) {
 	for _, k := range calls {
 		obs = append(obs, wStr(k))
 	}
+	if unwrapBroken {
+		obs = append(obs, "ErrKeyAuthMissing.Unwrap-does-not-return-Err")
+	}
 	res.Obs = strings.Join(obs, " ")
 
 	res.Oracle = c13KeyOracle(c, srcs, located, calls, ran, rec.Code)
 
+	if c.Ctor == 1 {
+		res.Tags = append(res.Tags, "key:ctor-KeyAuth(fn)")
+	}
+	if c.Skipper == 1 {
+		res.Tags = append(res.Tags, "key:custom-skipper")
+	}
+	if len(c.Params) == 22 {
+		res.Tags = append(res.Tags, "key:22-path-params")
+	}
+	if c.Method != "" {
+		res.Tags = append(res.Tags, "key:method-"+c.Method)
+	}
 	switch {
+	case c.skipped():
+		res.Tags = append(res.Tags, "key:skipped")
 	case ran && ehClass != 0:
 		res.Tags = append(res.Tags, "key:continued-on-ignored-error")
 	case ran:
@@ -529,6 +731,14 @@ func c13RunKey(c *c13Case) (res Result) {
 		res.Tags = append(res.Tags, "key:src-"+s.kind)
 		if len(located[i]) > 20 {
 			res.Tags = append(res.Tags, "key:over-limit")
+			if s.kind == "cookie" {
+				for j, p := range located[i] {
+					if j >= 20 && p.name == s.name {
+						res.Tags = append(res.Tags, "key:cookie-behind-20-others")
+						break
+					}
+				}
+			}
 		}
 		if s.kind == "header" && s.pre != "" && len(located[i]) > len(c13Candidates(s, located[i], 0)) {
 			res.Tags = append(res.Tags, "key:prefix-mismatch")
@@ -565,7 +775,134 @@ func c13RunKey(c *c13Case) (res Result) {
 	return res
 }
 
+// ---------- exported CreateExtractors ----------
+
+// c13RunExtractors drives the exported middleware.CreateExtractors(lookups) (no defaults, no AuthScheme; the empty
+// string yields no extractor) and applies every extractor to the request inside a handler.
+func c13RunExtractors(c *c13Case) (res Result) {
+	srcs, okCfg := c13Sources(c)
+	ops := []string{"2", wStr(c.Lookup), wInt(len(srcs))}
+	located := make([][]c13Pair, len(srcs))
+	for i, s := range srcs {
+		located[i] = c13Located(c, s)
+		ops = append(ops, wInt(len(located[i])))
+		for _, p := range located[i] {
+			ops = append(ops, wStr(p.name), wStr(p.value))
+		}
+	}
+	res.Ops = strings.Join(ops, " ")
+	res.Tags = []string{"extractors:direct"}
+
+	var exts []middleware.ValuesExtractor
+	var cErr error
+	ctorPanic := func() (p bool) {
+		defer func() {
+			if r := recover(); r != nil {
+				p = true
+				res.Oracle = fmt.Sprintf("CreateExtractors panicked: %v", r)
+			}
+		}()
+		exts, cErr = middleware.CreateExtractors(c.Lookup)
+		return false
+	}()
+	if ctorPanic {
+		res.Obs = "panic"
+		return res
+	}
+	if cErr != nil || !okCfg {
+		res.Obs = "config-error"
+		if (cErr != nil) != !okCfg {
+			res.Obs = fmt.Sprintf("config-error=%v but lookup well-formed=%v", cErr != nil, okCfg)
+		}
+		res.Tags = append(res.Tags, "extractors:config-error")
+		return res
+	}
+	type extRes struct {
+		keys []string
+		err  error
+	}
+	var got []extRes
+	e := echo.New()
+	h := func(ctx echo.Context) error {
+		for _, x := range exts {
+			k, err := x(ctx)
+			got = append(got, extRes{append([]string(nil), k...), err})
+		}
+		return ctx.NoContent(http.StatusOK)
+	}
+	e.Any("/", h)
+	e.Any("/p/:key/:other", h)
+	e.Any(c13ManyRoute(), h)
+	rec := httptest.NewRecorder()
+	panicked := func() (p bool) {
+		defer func() {
+			if r := recover(); r != nil {
+				p = true
+				res.Oracle = fmt.Sprintf("an extractor panicked: %v", r)
+			}
+		}()
+		e.ServeHTTP(rec, c13Request(c))
+		return false
+	}()
+	if panicked {
+		res.Obs = "panic"
+		return res
+	}
+	obs := []string{wInt(len(got))}
+	for _, g := range got {
+		if g.err != nil {
+			obs = append(obs, "0")
+			continue
+		}
+		obs = append(obs, "1", wStrs(g.keys))
+	}
+	res.Obs = strings.Join(obs, " ")
+	if len(exts) == 0 {
+		res.Tags = append(res.Tags, "extractors:none")
+	}
+	// oracle: every returned value is literally at the extractor's location; nothing among the first 20 is lost
+	if len(got) == len(srcs) {
+		for i, s := range srcs {
+			res.Tags = append(res.Tags, "extractors:src-"+s.kind)
+			present := map[string]bool{}
+			for _, k := range c13Candidates(s, located[i], 0) {
+				present[k] = true
+			}
+			have := map[string]bool{}
+			for _, k := range got[i].keys {
+				have[k] = true
+				if !present[k] && res.Oracle == "" {
+					res.Oracle = fmt.Sprintf("extractor %d (%s:%s) returned %q, which is not at its location of the request", i, s.kind, s.name, k)
+				}
+			}
+			for _, k := range c13Candidates(s, located[i], 20) {
+				if !have[k] && res.Oracle == "" {
+					res.Oracle = fmt.Sprintf("extractor %d (%s:%s) lost the value %q, which is among the first 20 at its location", i, s.kind, s.name, k)
+				}
+			}
+			if len(got[i].keys) > 0 {
+				res.Nontrivial = true
+			}
+		}
+	} else if res.Oracle == "" {
+		res.Oracle = fmt.Sprintf("%d extractors built for %d known lookup sources", len(got), len(srcs))
+	}
+	return res
+}
+
 // c13BasicOracle evaluates the property itself on what one BasicAuth request did (no model).
+func c13BasicDecoded(c *c13Case) (du, dp string) {
+	if len(c.Auth) > 0 {
+		h := string(c.Auth[0])
+		if len(h) >= 6 && strings.EqualFold(h[:5], "basic") {
+			if dec, err := base64.StdEncoding.DecodeString(h[6:]); err == nil {
+				du, dp, _ = strings.Cut(string(dec), ":")
+			}
+		}
+	}
+	return du, dp
+}
+
 func c13BasicOracle(c *c13Case, calls []c13Call, ran bool, code int) (oracle string, derived, wellFormed bool) {
 	// credentials literally present in the request: first Authorization value, scheme "basic" in any
 	// casing, base64 text after the sixth byte, split at the first colon
@@ -590,6 +927,13 @@ func c13BasicOracle(c *c13Case, calls []c13Call, ran bool, code int) (oracle str
 		if !derived || cl.u != du || cl.p != dp {
 			fail(fmt.Sprintf("validator called with (%q, %q), which is not the decoded text of the request's credentials split at the first colon", cl.u, cl.p))
 		}
+	}
+	if c.skipped() {
+		// the configured Skipper takes this request out of the middleware: the one way past the validator
+		if !ran {
+			fail(fmt.Sprintf("the configured Skipper skips this request, but the handler did not run (status %d)", code))
+		}
+		return oracle, derived, wellFormed
 	}
 	if ran {
 		if len(calls) == 0 {
@@ -643,6 +987,12 @@ func c13KeyOracle(c *c13Case, srcs []c13Src, located [][]c13Pair, calls []string
 		}
 	}
 	ignoredErrOptIn := c.Cont && c.EH == 1
+	if c.skipped() {
+		if !ran {
+			fail(fmt.Sprintf("the configured Skipper skips this request, but the handler did not run (status %d)", code))
+		}
+		return oracle
+	}
 	if ran {
 		approved := len(calls) > 0 && c.lookup([]byte(calls[len(calls)-1]), nil) == 1
 		if !approved && !ignoredErrOptIn {
@@ -674,6 +1024,66 @@ func c13Pick[T any](r *rand.Rand, l []T) T { return l[r.Intn(len(l))] }
 var c13Users = []string{"user", "joe", "", "admin", "a", "us er", "\xff\xfe", "jöe", "Aladdin", "user\n"}
 var c13Passes = []string{"pass", "secret", "", "p:q", ":", "::", "a:b:c", "open sesame", "\x00\x80", "päss", "pass:"}
 var c13ErrCodes = []int{500, 500, 403, 418, 401, 400}
+
+// bytes that "tolerant" parsers like to trim or normalise, put at the borders of a credential part
+var c13Edge = []string{"\n", "\r", "\r\n", "\n\n", " ", "\t", "\x00", "\v", "\f", "\u00a0", "\u2028", "\x85", "\ufeff", "\"", "'", "=", "%20", "+"}
+
+// c13Borders decorates one credential part with such bytes in front and / or behind
+func c13Borders(r *rand.Rand, s string) string {
+	switch r.Intn(4) {
+	case 0:
+		return c13Pick(r, c13Edge) + s
+	case 1:
+		return c13Pick(r, c13Edge) + s + c13Pick(r, c13Edge)
+	}
+	return s + c13Pick(r, c13Edge)
+}
+
+// every reading of a credential part that differs from the literal one by a normalisation step
+func c13Normalised(s string) []string {
+	var out []string
+	add := func(t string) {
+		if t != s {
+			for _, o := range out {
+				if o == t {
+					return
+				}
+			}
+			out = append(out, t)
+		}
+	}
+	add(strings.TrimRight(s, "\r\n"))
+	add(strings.TrimSpace(s))
+	add(strings.TrimRight(s, " \t\r\n\x00"))
+	add(strings.TrimLeft(s, " \t\r\n\x00"))
+	add(strings.Trim(s, "\"'"))
+	add(strings.ToLower(s))
+	add(strings.ToValidUTF8(s, ""))
+	if u, err := url.QueryUnescape(s); err == nil {
+		add(u)
+	}
+	return out
+}
+
+// how the case picks constructor and Skipper (shared by both middlewares)
+func c13GenEntry(r *rand.Rand, c *c13Case) {
+	switch r.Intn(40) {
+	case 0, 1, 2, 3, 4, 5:
+		c.Ctor = 1
+	case 6:
+		if r.Intn(6) == 0 {
+			c.Ctor = 2 + r.Intn(2)
+		}
+	}
+	switch r.Intn(10) {
+	case 0:
+		c.Skipper, c.Skip = 1, true
+	case 1:
+		c.Skipper = 1
+	case 2:
+		c.Skip = r.Intn(3) == 0 // the header alone, without a Skipper that looks at it
+	}
+}
 
 func c13RandOutcome(r *rand.Rand) int {
 	switch r.Intn(4) {
@@ -737,6 +1147,21 @@ func c13GenBasic(r *rand.Rand) *c13Case {
 		r.Read(b)
 		p = string(b)
 	}
+	// bytes at the borders of user / password that a lenient reading would drop
+	switch r.Intn(8) {
+	case 0:
+		p = c13Borders(r, p)
+	case 1:
+		u = c13Borders(r, u)
+	case 2:
+		if r.Intn(2) == 0 {
+			u, p = c13Borders(r, u), c13Borders(r, p)
+		}
+	}
+	c13GenEntry(r, c)
+	if r.Intn(5) == 0 {
+		c.Method = c13Pick(r, c13Methods)
+	}
 	cred := u + ":" + p
 	switch r.Intn(12) {
 	case 0:
@@ -799,6 +1224,19 @@ func c13GenBasic(r *rand.Rand) *c13Case {
 	add(strings.ToUpper(u), p)
 	add(u+":", p)
 	add(cred, "")
+	// what a normalising reading of the same header would present instead (mostly acceptable to the validator,
+	// so that a middleware which normalises lets the request through)
+	addNorm := func(u2, p2 string) {
+		if r.Intn(3) != 0 {
+			c.Table = append(c.Table, c13Entry{U: []byte(u2), P: []byte(p2), Out: c13Pick(r, []int{1, 1, 1, 0, 403})})
+		}
+	}
+	for _, p2 := range c13Normalised(p) {
+		addNorm(u, p2)
+	}
+	for _, u2 := range c13Normalised(u) {
+		addNorm(u2, p)
+	}
 	r.Shuffle(len(c.Table), func(i, j int) { c.Table[i], c.Table[j] = c.Table[j], c.Table[i] })
 	return c
 }
@@ -887,6 +1325,11 @@ func c13GenKey(r *rand.Rand) *c13Case {
 	}
 	c.EH = c13Pick(r, []int{0, 0, 0, 0, 1, 1, 2, 403, 418})
 	c.Cont = r.Intn(3) == 0
+	c13GenEntry(r, c)
+	if c.Ctor == 1 && r.Intn(3) != 0 {
+		// the convenience constructor looks at `Authorization: Bearer <key>` only: aim most of its cases there
+		specs = []srcSpec{{"header:Authorization", "header", "Authorization", "Bearer "}}
+	}
 
 	// the intended key and its validator entry
 	tok := c13Pick(r, c13Tokens)
@@ -971,6 +1414,21 @@ func c13GenKey(r *rand.Rand) *c13Case {
 				return s
 			}
 			c.Params = []string{safe(genVal("", 0, 1)), safe(c13Pick(r, c13Tokens))}
+			if r.Intn(3) == 0 {
+				// route with 22 parameters, six of them under the looked-up name; the intended key at one of them
+				c.Params = nil
+				at := c13Pick(r, []int{0, 5, 18, 19, 19, 20, 21})
+				for i, n := range c13ParamNames(22) {
+					v := safe(c13Pick(r, c13Tokens))
+					if n != "key" && r.Intn(4) == 0 {
+						v = safe(tok)
+					}
+					if i == at {
+						v = safe(tok)
+					}
+					c.Params = append(c.Params, v)
+				}
+			}
 		case "cookie":
 			var parts []string
 			for i := 0; i < k; i++ {
@@ -989,7 +1447,22 @@ func c13GenKey(r *rand.Rand) *c13Case {
 				}
 				parts = append(parts, name+"="+v)
 			}
-			if r.Intn(2) == 0 || k > 8 {
+			if r.Intn(5) == 0 {
+				// a crowd of foreign cookies (analytics, consent, ...) in front of / between the looked-up ones: the
+				// limit of 20 counts returned values, not inspected cookies
+				crowd := 15 + r.Intn(15)
+				var all []string
+				for i := 0; i < crowd; i++ {
+					all = append(all, fmt.Sprintf("%s%d=v%d", c13Pick(r, []string{"c", "_ga", "consent", "keys", "Key"}), i, i))
+				}
+				at := r.Intn(4)
+				if at == 0 && len(parts) > 1 {
+					parts = append(append(append([]string(nil), parts[:1]...), all...), parts[1:]...)
+				} else {
+					parts = append(all, parts...)
+				}
+			}
+			if r.Intn(2) == 0 || k > 8 || len(parts) > 8 {
 				c.Cookie = append(c.Cookie, strings.Join(parts, "; "))
 			} else {
 				c.Cookie = append(c.Cookie, parts...)
@@ -1008,9 +1481,43 @@ func c13GenKey(r *rand.Rand) *c13Case {
 			}
 		}
 	}
-	// a key at a location that is NOT configured must never count
-	if r.Intn(6) == 0 {
-		c.Headers = append(c.Headers, c13Hdr{Name: "X-Other", Values: [][]byte{[]byte(tok)}})
+	// a key at a location that is NOT configured must never count: the usual places tokens travel in
+	if r.Intn(4) == 0 {
+		configured := func(kind, name string) bool {
+			for _, sp := range specs {
+				if sp.kind == kind && strings.EqualFold(sp.name, name) {
+					return true
+				}
+			}
+			return false
+		}
+		for k := 1 + r.Intn(2); k > 0; k-- {
+			switch r.Intn(5) {
+			case 0:
+				if n := c13Pick(r, []string{"X-Other", "X-Api-Key", "X-Auth-Token", "Authorization", "Proxy-Authorization"}); !configured("header", n) {
+					c.Headers = append(c.Headers, c13Hdr{Name: n, Values: [][]byte{[]byte(c13Pick(r, []string{"", "Bearer ", "Token "}) + tok)}})
+				}
+			case 1:
+				// Request.Form also holds the query values: a query pair counts for a form source of that name
+				if n := c13Pick(r, []string{"access_token", "token", "key", "api_key", "apikey"}); !configured("query", n) && !configured("form", n) {
+					c.Query = append(c.Query, c13KV{[]byte(n), []byte(tok)})
+				}
+			case 2:
+				if n := c13Pick(r, []string{"token", "session", "key", "auth"}); !configured("cookie", n) {
+					c.Cookie = append(c.Cookie, n+"=tokvalue")
+					c.Table = append(c.Table, c13Entry{U: []byte("tokvalue"), Out: 1})
+				}
+			case 3:
+				if n := c13Pick(r, []string{"access_token", "token", "key"}); !configured("form", n) && len(c.Form) > 0 && !c.Multipart {
+					c.Form = append(c.Form, c13KV{[]byte(n), []byte(tok)})
+				}
+			case 4:
+				c.Headers = append(c.Headers, c13Hdr{Name: "X-Other", Values: [][]byte{[]byte(tok)}})
+			}
+		}
+	}
+	if c.Method == "" && r.Intn(6) == 0 {
+		c.Method = c13Pick(r, c13Methods)
 	}
 	r.Shuffle(len(c.Table), func(i, j int) { c.Table[i], c.Table[j] = c.Table[j], c.Table[i] })
 	return c
@@ -1087,6 +1594,21 @@ func c13Gen(r *rand.Rand, tier string) []any {
 	// deterministic overlapping requests through one middleware instance (oracle only)
 	for i := 0; i < n/8; i++ {
 		out = append(out, c13GenConc(r))
+	}
+	// the exported CreateExtractors entry point: same requests, the extractors applied directly
+	for i := 0; i < n/10; i++ {
+		c := c13GenKey(r)
+		c.Mode, c.Ctor, c.Skipper, c.Skip = 3, 0, 0, false
+		switch r.Intn(12) {
+		case 0:
+			c.Lookup = ""
+		case 1:
+			c.Lookup = c13Pick(r, []string{"header:Authorization", "header:Authorization:Bearer ", "header", ",", "headers:X", "query:key,", "param:key,cookie:key"})
+		}
+		if c.Lookup == "" && r.Intn(2) == 0 {
+			c.Headers = append(c.Headers, c13Hdr{Name: "Authorization", Values: [][]byte{[]byte("Bearer tok")}})
+		}
+		out = append(out, c)
 	}
 	return out
 }
@@ -1171,6 +1693,38 @@ func c13Shrink(ci any) []any {
 		d.ErrValid = false
 		out = append(out, d)
 	}
+	if c.Ctor != 0 {
+		d := c13Clone(c)
+		d.Ctor = 0
+		out = append(out, d)
+		// what the convenience constructors ignore anyway
+		if c.Realm != "" || c.Lookup != "" || c.Scheme != "" || c.EH != 0 || c.Cont || c.Skipper != 0 {
+			d := c13Clone(c)
+			d.Realm, d.Lookup, d.Scheme, d.EH, d.Cont, d.Skipper = "", "", "", 0, false, 0
+			out = append(out, d)
+		}
+	}
+	if len(c.Params) == 22 {
+		// keep the shape, simplify the values that do not matter
+		for i, v := range c.Params {
+			if v != "x" {
+				d := c13Clone(c)
+				d.Params[i] = "x"
+				out = append(out, d)
+			}
+		}
+	}
+	if c.Skipper != 0 {
+		d := c13Clone(c)
+		d.Skipper = 0
+		out = append(out, d)
+	}
+	if c.Skip {
+		d := c13Clone(c)
+		d.Skip = false
+		out = append(out, d)
+	}
+	// shorter user / password / key in the first credential-bearing value is not attempted: the table is keyed by it
 	for i := range c.RawQuery {
 		d := c13Clone(c)
 		d.RawQuery = append(d.RawQuery[:i], d.RawQuery[i+1:]...)
@@ -1207,11 +1761,11 @@ func c13Shrink(ci any) []any {
 func init() {
 	register(&Prop{
 		ID:             "C13",
-		Rule:           "sequential cases (compared with the model): half BasicAuth, half KeyAuth; plus 1/8 as many overlapping streams (oracle only): ONE middleware instance, 2-3 requests with multi-value headers / several lookup sources, request i stops inside its k-th validator call (channels, no timing) until request i+1 has been served completely, every request judged on its own by the same oracle. Sequential cases: Basic: Authorization values assembled from scheme (casings, truncated, foreign, with U+017F / U+212A / invalid bytes) + separator (space, none, other) + payload (std base64 of user:password incl. empty parts, colons in the password, non-UTF-8; unpadded, URL alphabet, CR/LF inside, truncated, trailing garbage, foreign character, non-zero trailing bits, raw), 0-3 header lines, validator table keyed by credentials (the intended pair + near misses such as the split at the last colon) with outcomes true/false/error((false|true),err). Key: 1-3 lookup sources (header with scheme prefix / explicit cut prefix / none, query, form, cookie, param), 0-23 values per location with prefix variants; for form / query sources the REST of the body / query string is partly malformed (bad %-escapes, semicolons, duplicate and 3-7 KB fields, a malformed field under the looked-up name) in front of or behind the well-formed key, multipart/form-data bodies with mixed-case media types, extra parameters and odd boundaries, urlencoded media-type spellings, non-form media types, PUT/PATCH/DELETE/GET with a body, body combined with query string, ErrorHandler absent / returns nil / passes / returns HTTPError, ContinueOnIgnoredError. Non-trivial = the validator was called or the base64 text was rejected; distinct = distinct model op lines",
+		Rule:           "sequential cases (compared with the model): half BasicAuth, half KeyAuth; plus 1/8 as many overlapping streams (oracle only): ONE middleware instance, 2-3 requests with multi-value headers / several lookup sources, request i stops inside its k-th validator call (channels, no timing) until request i+1 has been served completely, every request judged on its own by the same oracle. Sequential cases: Basic: Authorization values assembled from scheme (casings, truncated, foreign, with U+017F / U+212A / invalid bytes) + separator (space, none, other) + payload (std base64 of user:password incl. empty parts, colons in the password, non-UTF-8; unpadded, URL alphabet, CR/LF inside, truncated, trailing garbage, foreign character, non-zero trailing bits, raw), 0-3 header lines, validator table keyed by credentials (the intended pair + near misses such as the split at the last colon) with outcomes true/false/error((false|true),err). Key: 1-3 lookup sources (header with scheme prefix / explicit cut prefix / none, query, form, cookie, param), 0-23 values per location with prefix variants; for form / query sources the REST of the body / query string is partly malformed (bad %-escapes, semicolons, duplicate and 3-7 KB fields, a malformed field under the looked-up name) in front of or behind the well-formed key, multipart/form-data bodies with mixed-case media types, extra parameters and odd boundaries, urlencoded media-type spellings, non-form media types, PUT/PATCH/DELETE/GET with a body, body combined with query string, ErrorHandler absent / returns nil / passes / returns HTTPError, ContinueOnIgnoredError. Non-trivial = the validator was called or the base64 text was rejected; distinct = distinct model op lines. Round 4: both middlewares through ...WithConfig or the convenience constructors BasicAuth(fn) / KeyAuth(fn) (rarely with a nil validator: constructor panic), default or custom Skipper (skips the requests carrying a marker header, also inside the overlapping streams), request methods incl. OPTIONS / HEAD / TRACE / PROPFIND; Basic: user / password with CR, LF, blanks, NUL, NBSP, quotes, %20 at their borders, validator table holding every normalised reading (trimmed, lower-cased, unescaped) mostly as acceptable, the WWW-Authenticate challenge compared for default / custom realms; Key: route with 22 path parameters (looked-up name at indices 0, 5, 18-21), the key at popular locations that are NOT configured (query access_token / token / key / api_key, headers X-Api-Key / X-Auth-Token / Proxy-Authorization, cookies, form fields), ErrKeyAuthMissing unwrapped inside the ErrorHandler; plus 1/10 as many cases through the exported CreateExtractors(lookups) (no defaults, empty string, malformed strings), every extractor applied to the request inside a handler",
 		New:            func() any { return &c13Case{} },
 		Gen:            c13Gen,
 		Run:            c13Run,
 		Shrink:         c13Shrink,
-		Correspondence: "C13.basicAuth / C13.keyAuth (lean/EchoModel/C13.lean) vs middleware.BasicAuthWithConfig / KeyAuthWithConfig + extractors",
+		Correspondence: "C13.basicAuthMW + wwwValue / C13.keyAuthMW / C13.createExtractors + extract (lean/EchoModel/C13.lean) vs middleware.BasicAuth / BasicAuthWithConfig / KeyAuth / KeyAuthWithConfig / CreateExtractors",
 	})
 }
